@@ -24,9 +24,12 @@ def gen_history(rng, depth, with_expr=True):
     n = rng.randint(1, 4)
     ops = []
     created = []
+    # a quarter of the histories use feature names that are close to the reserved ones (pieces of "xyzt", a keyword prefix) instead of a b c s
+    ren = rng.choice([{}, {}, {}, {'a': 'xy', 'b': 'zt', 'c': 'xyz', 's': 'yz'}, {'a': 'tx', 'b': 'id', 'c': 'x2', 's': 'yzt'}])
+    R = lambda nm: ren.get(nm, nm)
     for _ in range(depth):
         k = rng.choice(['C', 'C', 'R', 'D', 'L', 'U', 'I', 'I', 'O', 'F', 'E', 'E'] if with_expr else ['C', 'C', 'R', 'D', 'L', 'U', 'I', 'I', 'O', 'F'])
-        nm = rng.choice(NAMES)
+        nm = R(rng.choice(NAMES))
         if k in ('C', 'L', 'U', 'I', 'F') and nm not in ('x', 'y', 'idx', 't', 'lbl'):
             created.append(nm)
         val = lambda: rng.choice([0, 1, 2, 3, -1, 0.5, 4])
@@ -53,7 +56,7 @@ def gen_history(rng, depth, with_expr=True):
             # an expression over the names currently plausible; assignment or not
             tree = C02.gen_tree(rng, rng.randint(1, 2))
             # mostly names that an earlier operation of this history tried to create: an expression over a missing name only raises
-            names_in = (created * 3 + ['x', 'y', 'idx']) if created and rng.random() < 0.8 else ['a', 'b', 'c', 's', 'x', 'y', 'idx']
+            names_in = (created * 3 + ['x', 'y', 'idx']) if created and rng.random() < 0.8 else [R(v) for v in ['a', 'b', 'c', 's']] + ['x', 'y', 'idx']
             if created and rng.random() < 0.3:            # the scalar forms: number op feature and feature op number each have their own operator class
                 f = ['name', rng.choice(created)]; l = ['lit', rng.choice(['2', '3', '0.5', '8'])]
                 tree = ['bin', rng.choice(['/', '/', '-', '*', '+', '^']), l, f] if rng.random() < 0.6 else ['bin', rng.choice(['/', '-', '*', '+']), f, l]
@@ -71,6 +74,7 @@ def gen_history(rng, depth, with_expr=True):
                 return ['bin', e[1], rename(e[2]), rename(e[3])]
             tree = rename(tree)
             lhs = rng.choice([None, 'c', 'a', 'b', 'x', 'y'])
+            lhs = R(lhs) if lhs else lhs
             ops.append(['E', (lhs + '=' if lhs else '') + C02.pr(tree, rng), tree, lhs])
     return {'n': n, 'ops': ops}
 
